@@ -93,7 +93,7 @@ def parse_template(text, variant=None):
     while i < len(lines):
         ln = lines[i]
         s = ln.strip()
-        m = re.match(r"//@(statetags|fnset|fn|struct|enum|trait|type|const)\s+(.*)$", s)
+        m = re.match(r"//@(statedispatch|statetags|fnset|fn|struct|enum|trait|type|const)\s+(.*)$", s)
         if m:
             if buf:
                 out.append(("text", "\n".join(buf) + "\n"))
@@ -688,6 +688,23 @@ def build(template_path, repo, out_path, expanded=None, variant=None):
             out.append(p)
             line += p.count("\n")
         else:
+            if p["kind"] == "statedispatch":
+                names = []
+                src0, _sc = ex.load(p["file"])
+                for dd in ex.expand_fnset(p):
+                    names.append(dd["name"])
+                    c = rs.find_item(src0, "fn", p["container"], dd["name"], _sc)
+                    if c and "let entered" in rs.norm(src0[c[0].start:c[0].end]):
+                        names.append(dd["name"] + "__entered")
+                spec = "\n".join("        " + l for l in p["spec"])
+                text = ("    // R4: `self.state()(self, context, input)` -- calling the stored fn pointer -- is the call of the state function whose\n"
+                        "    // tag is stored (generated: one arm per state function of the expanded source)\n"
+                        "    #[verifier::exec_allows_no_decreases_clause]\n"
+                        "    fn call_state(&mut self, context: &mut Self::Context, input: &[u8]) -> (r: StateResult)\n" + spec + "\n    {\n        match self.state() {\n"
+                        + "".join(f"            StateTag::{n} => Self::{n}(self, context, input),\n" for n in names) + "        }\n    }\n")
+                out.append(text)
+                line += text.count("\n")
+                continue
             if p["kind"] == "statetags":
                 names = []
                 src0, _sc = ex.load(p["file"])
